@@ -738,6 +738,7 @@ type c05obs struct {
 	nextRan   bool
 	nextLevel string // device-side log: "" = the recovery exchange ran at the level it demands
 	nextClass string
+	trace     string
 	nextRes   string
 	nextPanic string
 	nextHang  bool
@@ -843,6 +844,17 @@ func c05run(cs c05case, recoverAt func(k int) bool) c05obs {
 		if e.nextCheck != nil && !nhang && npanic == "" {
 			o.nextLevel = e.nextCheck()
 		}
+		// trace for the report: everything the client wrote and the device emitted / delivered since
+		// the operation started, and the sizes of the reads after it
+		e.pipe.Snapshot(func() {
+			var ws []string
+			for _, w := range e.pipe.Writes[w0:] {
+				ws = append(ws, fmt.Sprintf("%q@%d", w.Data, w.EmittedBefore-o.e0))
+			}
+			em := e.pipe.EmittedBytes()
+			o.trace = fmt.Sprintf("writes(data@emitted-before) %v; emitted since op start %q; delivered %d of %d emitted; reads %v; next err %v",
+				ws, em[o.e0:], e.pipe.Delivered-o.e0, e.pipe.Emitted-o.e0, e.pipe.ReadLog[r0:], nerr)
+		})
 	}
 	if !failedOpen {
 		// a failed Open has already closed the channel (closing twice is C07's finding, not ours)
@@ -1412,7 +1424,7 @@ func c05check(c *ctx, ref *c05ref, cases []c05case) {
 					c05name(cs), cs.k, ref.total, o.class, o.nextClass, o.nextRes, o.nextLevel), "no-recovery:wrong-level:"+c05sig(cs))
 			case o.nextClass != "nil" || o.nextRes != e.nextWant:
 				res.Fail("oracle", cl, fmt.Sprintf("after %s (stall at byte %d of %d, class %s) the device caught up, but the next exchange returned class %s result %q, expected %q",
-					c05name(cs), cs.k, ref.total, o.class, o.nextClass, o.nextRes, e.nextWant), "no-recovery:"+c05sig(cs))
+					c05name(cs), cs.k, ref.total, o.class, o.nextClass, o.nextRes, e.nextWant)+" TRACE "+o.trace, "no-recovery:"+c05sig(cs))
 			}
 		}
 	}
